@@ -28,6 +28,7 @@ const (
 	emptyNone     = 0
 	emptyByFilter = 1 // the filter callbacks reject every element of the blocks with an odd number
 	emptyBySkip   = 2 // SkipWays: every way block (block 1, 4, ...) is skipped without decoding
+	variedParams  = 3 // nothing emptied: the first two blocks state block parameters, the later ones omit them
 )
 
 func pipeline(n, b, bound int, filters, header bool) vexplore.Scenario {
@@ -37,7 +38,7 @@ func pipeline(n, b, bound int, filters, header bool) vexplore.Scenario {
 func pipelineE(n, b, bound int, filters, header bool, empty int) vexplore.Scenario {
 	name := fmt.Sprintf("pipeline procs=%d blocks=%d filters=%v", n, b, filters)
 	if empty != emptyNone {
-		name += []string{"", " odd-blocks-rejected-by-filter", " way-blocks-skipped"}[empty]
+		name += []string{"", " odd-blocks-rejected-by-filter", " way-blocks-skipped", " block-params-come-and-go"}[empty]
 	}
 	// block of an element id (pbfscen.File: ids are 100*(block+1)+position)
 	keepID := func(id int64) bool { return empty != emptyByFilter || (id/100-1)%2 == 0 }
@@ -46,6 +47,9 @@ func pipelineE(n, b, bound int, filters, header bool, empty int) vexplore.Scenar
 		name += " no-header"
 	}
 	file := pbfscen.File(b, header)
+	if empty == variedParams {
+		file = pbfscen.FileVaried(b, header)
+	}
 	enc := file.Encode()
 	var want []osm.Object
 	for _, o := range file.Expected() {
@@ -174,9 +178,9 @@ func main() {
 		// blocks that end up empty for the consumer (rejected by the filters / skipped
 		// by a flag) between blocks that do not: the order of the rest must not change
 		type ecfg struct{ n, b, d, empty int }
-		ecfgs := []ecfg{{2, 5, 1, emptyByFilter}, {3, 5, 1, emptyByFilter}, {2, 5, 1, emptyBySkip}, {12, 5, 1, emptyBySkip}}
+		ecfgs := []ecfg{{2, 5, 1, emptyByFilter}, {3, 5, 1, emptyByFilter}, {2, 5, 1, emptyBySkip}, {12, 5, 1, emptyBySkip}, {1, 4, 1, variedParams}, {2, 6, 1, variedParams}, {3, 6, 1, variedParams}}
 		if !r.Quick() {
-			ecfgs = []ecfg{{2, 5, 2, emptyByFilter}, {3, 6, 2, emptyByFilter}, {4, 6, 1, emptyByFilter}, {12, 5, 1, emptyByFilter}, {2, 5, 2, emptyBySkip}, {3, 6, 2, emptyBySkip}, {12, 5, 1, emptyBySkip}}
+			ecfgs = []ecfg{{2, 5, 2, emptyByFilter}, {3, 6, 2, emptyByFilter}, {4, 6, 1, emptyByFilter}, {12, 5, 1, emptyByFilter}, {2, 5, 2, emptyBySkip}, {3, 6, 2, emptyBySkip}, {12, 5, 1, emptyBySkip}, {1, 4, 2, variedParams}, {2, 6, 2, variedParams}, {3, 7, 2, variedParams}, {4, 7, 1, variedParams}}
 		}
 		for _, c := range ecfgs {
 			scs = append(scs, pipelineE(c.n, c.b, c.d, true, true, c.empty))
